@@ -146,6 +146,23 @@ theorem top_createTopic {s : St} (h : TopInv s) (ph : Nat) (n : String) (k : Boo
           unfold hasTopic at hm ⊢
           simp [List.any_append, hm]
 
+theorem top_findTopicOp {s : St} (h : TopInv s) (ph : Nat) (n : String) (k d : Bool) :
+    TopInv (findTopicOp s ph n k d).1 := by
+  unfold findTopicOp
+  split
+  · exact h
+  · split
+    · exact h
+    · split
+      · exact h
+      · simp only
+        split
+        · exact h
+        · refine TopInv.mono h ⟨?_, ?_, ?_, ?_, ?_⟩ <;> try topmono_fields
+          intro u m hm
+          unfold hasTopic at hm ⊢
+          simp [List.any_append, hm]
+
 theorem top_createCft {s : St} (h : TopInv s) (r : TopicRef) (n : String) (v : Bool) :
     TopInv (createCft s r n v).1 := by
   unfold createCft
@@ -466,6 +483,7 @@ theorem top_step {s : St} (h : TopInv s) (op : Op) : TopInv (step s op).1 := by
   | createSub ph a => exact top_createSub h ph a
   | deleteSub via r => exact top_deleteSub h via r
   | createTopic ph n k => exact top_createTopic h ph n k
+  | findTopic ph n k d => exact top_findTopicOp h ph n k d
   | deleteTopic via r => exact top_deleteTopic h via r
   | createCft r n v => exact top_createCft h r n v
   | deleteCft ph n => exact top_deleteCft h ph n
